@@ -9,7 +9,7 @@ use serde::{Deserialize, Serialize};
 pub const INFO: PropInfo = PropInfo {
     id: "C08",
     level: "exploration",
-    rule: "cases = (subshell kind: ( ), $( ) in an assignment / argument / redirection operand, each position of a 2-3 command pipeline, asynchronous list + wait, nested combinations; how the subshell ends: falls off the end, exit 3, killed by SIGTERM / SIGINT / SIGQUIT sent to itself; shell non-interactive (-c) or interactive (-i, script on standard input); sequence of 1-5 state mutators from a 60-entry catalogue: scalar/array assignment, unset, export, readonly, function define/unset, alias/unalias, set -o/+o for each safe option, set --/shift, cd, umask, trap command/ignore/reset incl. EXIT, exec redirections opening/closing/duplicating fds 3-9, ${x=..}, $((x=..)), read, getopts; schedule: FIFO or seeded with preemption). Oracle: full parent snapshot (variables with attributes, functions, aliases, options, positional parameters, traps, cwd, umask, descriptor table with open-file-description identity, signal dispositions of the simulated process) before == after the subshell command; child view at subshell entry == parent snapshot except that traps with command actions are default (ignored stay ignored, dispositions in the simulated process agree). Exhaustive: kind x single mutator; random: sequences. Non-trivial = the mutators really changed the child's state (child snapshot after != before); distinct by serialised case.",
+    rule: "cases = (subshell kind: ( ), $( ) in an assignment / argument / redirection operand, each position of a 2-3 command pipeline, asynchronous list + wait, nested combinations; how the subshell ends: falls off the end, exit 3, killed by SIGTERM / SIGINT / SIGQUIT sent to itself; shell non-interactive (-c) or interactive (-i, script on standard input); standard descriptors 0/1/2 closed beforehand in every combination; sequence of 1-5 state mutators from a 60-entry catalogue: scalar/array assignment, unset, export, readonly, function define/unset, alias/unalias, set -o/+o for each safe option, set --/shift, cd, umask, trap command/ignore/reset incl. EXIT, exec redirections opening/closing/duplicating fds 3-9, ${x=..}, $((x=..)), read, getopts; schedule: FIFO or seeded with preemption). Oracle: full parent snapshot (variables with attributes, functions, aliases, options, positional parameters, traps, cwd, umask, descriptor table with open-file-description identity, signal dispositions of the simulated process) before == after the subshell command; child view at subshell entry == parent snapshot except that traps with command actions are default (ignored stay ignored, dispositions in the simulated process agree). Exhaustive: kind x single mutator; random: sequences. Non-trivial = the mutators really changed the child's state (child snapshot after != before); distinct by serialised case.",
     assumptions: &[
         "observable parent state = what the snapshot records; `$?`, `$!`, the job list and the variable assigned by `x=$(...)` are excluded by construction",
         "interleavings at blocking points and preemption points only",
@@ -64,6 +64,11 @@ pub struct IsoCase {
     /// then an "interrupted" expansion error, a different path through the parent-side code
     #[serde(default)]
     pub interactive: bool,
+    /// standard descriptors closed with `exec` before the first snapshot (bit 0: fd 0, bit 1:
+    /// fd 1, bit 2: fd 2; non-interactive shells only), so that descriptors the subshell
+    /// machinery allocates (pipe ends, saved copies) land on the standard numbers
+    #[serde(default)]
+    pub closed: u8,
 }
 
 const PRELUDE: &str = "v1=orig\nv2=orig2\nexport v2\nf1() { echo f1; }\nalias a1='echo a1'\nset -- x y\ntrap 'echo usr1' USR1\ntrap '' USR2\nexec 3>/tmp/f0\numask 027\n";
@@ -94,15 +99,23 @@ fn script(c: &IsoCase) -> String {
         Kind::NestedParen => format!("( : ; (\n{body}) )"),
         Kind::ParenInSubst => format!("x=$( (\n{body}) )"),
     };
+    let mut pre = String::from(PRELUDE);
+    if !c.interactive {
+        for (bit, text) in [(1u8, "exec <&-\n"), (2, "exec >&-\n"), (4, "exec 2>&-\n")] {
+            if c.closed & bit != 0 {
+                pre.push_str(text);
+            }
+        }
+    }
     if c.outer.is_empty() {
-        format!("{PRELUDE}snap A\n{cmd}\nsnap B\n")
+        format!("{pre}snap A\n{cmd}\nsnap B\n")
     } else {
         let mut outer = String::new();
         for m in &c.outer {
             outer.push_str(MUTATORS[*m as usize % MUTATORS.len()]);
             outer.push('\n');
         }
-        format!("{PRELUDE}snap A\n(\n{outer}snap P\n{cmd}\nsnap Q\n)\nsnap B\n")
+        format!("{pre}snap A\n(\n{outer}snap P\n{cmd}\nsnap Q\n)\nsnap B\n")
     }
 }
 
@@ -311,6 +324,7 @@ fn check_iso(c: &IsoCase) -> Outcome {
         .class_if(changed, "child-state-changed")
         .class_if(!c.outer.is_empty(), "nested-in-outer-subshell")
         .class_if(c.interactive, "interactive-shell")
+        .class_if(!c.interactive && c.closed & 7 != 0, "standard-descriptor-closed-before")
         .class(match c.ending % 5 { 1 => "subshell-exits", 2 | 3 | 4 => "subshell-killed-by-signal", _ => "subshell-falls-off-end" })
         .class_if(!matches!(c.chooser, Chooser::Fifo), "non-fifo-schedule")
 }
@@ -329,7 +343,7 @@ pub fn run(ctx: &Ctx, st: &mut Stats) {
         let kind = KINDS[(r % nk) as usize];
         let m = (r / nk) as u16;
         let chooser = if sc == 0 { Chooser::Fifo } else { Chooser::Seeded(seed * 7919 + i) };
-        Some(IsoCase { kind, mutators: vec![m], chooser, outer: vec![], ending: 0, interactive: false })
+        Some(IsoCase { kind, mutators: vec![m], chooser, outer: vec![], ending: 0, interactive: false, closed: 0 })
     };
     ISO.run_exhaustive(ctx, st, nm * nk * nsched, &decode);
     st.exhaustive_drivers.retain(|d| d != "isolation"); // schedules are sampled
@@ -338,7 +352,7 @@ pub fn run(ctx: &Ctx, st: &mut Stats) {
     let decode2 = move |i: u64| -> Option<IsoCase> {
         let kind = KINDS[(i % nk) as usize];
         let m = (i / nk) as u16;
-        Some(IsoCase { kind, mutators: vec![0], chooser: Chooser::Fifo, outer: vec![m], ending: 0, interactive: false })
+        Some(IsoCase { kind, mutators: vec![0], chooser: Chooser::Fifo, outer: vec![m], ending: 0, interactive: false, closed: 0 })
     };
     ISO.run_exhaustive(ctx, st, nm * nk, &decode2);
     st.exhaustive_drivers.retain(|d| d != "isolation");
@@ -350,9 +364,19 @@ pub fn run(ctx: &Ctx, st: &mut Stats) {
         let r = r / 5;
         let interactive = r % 2 == 1;
         let m = [0u16, 37, 48, 42][(r / 2) as usize];
-        Some(IsoCase { kind, mutators: vec![m], chooser: Chooser::Fifo, outer: vec![], ending, interactive })
+        Some(IsoCase { kind, mutators: vec![m], chooser: Chooser::Fifo, outer: vec![], ending, interactive, closed: 0 })
     };
     ISO.run_exhaustive(ctx, st, nk * 5 * 2 * 4, &decode3);
+    st.exhaustive_drivers.retain(|d| d != "isolation");
+    // every kind x every set of closed standard descriptors x nested or not
+    let decode4 = move |i: u64| -> Option<IsoCase> {
+        let kind = KINDS[(i % nk) as usize];
+        let r = i / nk;
+        let closed = (r % 7) as u8 + 1;
+        let outer = if r / 7 == 1 { vec![0u16] } else { vec![] };
+        Some(IsoCase { kind, mutators: vec![0], chooser: Chooser::Fifo, outer, ending: 0, interactive: false, closed })
+    };
+    ISO.run_exhaustive(ctx, st, nk * 7 * 2, &decode4);
     st.exhaustive_drivers.retain(|d| d != "isolation");
     // random sequences
     let n = ctx.tier.pick(40_000, 2_000_000);
@@ -364,14 +388,16 @@ pub fn run(ctx: &Ctx, st: &mut Stats) {
             prop_oneof![1 => Just(vec![]), 1 => prop::collection::vec(0u16..MUTATORS.len() as u16, 1..4)],
             prop_oneof![3 => Just(0u8), 2 => 1u8..5],
             prop::bool::weighted(0.3),
+            prop_oneof![3 => Just(0u8), 1 => 1u8..8],
         )
-            .prop_map(|(k, mutators, seed, outer, ending, interactive)| IsoCase {
+            .prop_map(|(k, mutators, seed, outer, ending, interactive, closed)| IsoCase {
                 kind: KINDS[k],
                 mutators,
                 chooser: seed.map_or(Chooser::Fifo, Chooser::Seeded),
                 outer,
                 ending,
                 interactive,
+                closed,
             })
     });
 }
